@@ -36,6 +36,13 @@ UNITS2 = [
     ("{0}C=C{1}", "vinylene"),  # the two attachment atoms are joined by a double bond
     ("{0}c1ccccc1{1}", "ortho_phenylene"),  # ... by an aromatic ring-closure bond
     ("{0}C#C{1}", "ethynylene"),
+    ("{0}c1ccc(s1){1}", "thiophenediyl"),
+    ("{0}c1ccc(cn1){1}", "pyridinediyl"),
+    ("{0}C1CC({1})CO1", "oxolane_ring_closure_after_descriptor"),
+    ("{0}CC({1})C(=O)N(C)C", "acrylamide"),
+    ("{0}C(C)(C)C(=O)O{1}", "lactone_like"),
+    ("{0}[CH2][CH]({1})C", "bracket_carbons"),
+    ("{0}CC({1})CCl", "two_letter_side_chain"),
 ]
 # shapes that trigger the two known token-parser defects on the pinned tree
 UNITS2_BRANCHY = [
@@ -43,6 +50,7 @@ UNITS2_BRANCHY = [
     ("C({0}){1}", "methylene_adjacent"),  # descriptor right after a branch-closing descriptor
     ("{0}CC(CC)({1})", "butene_tailbranch"),
 ]
+UNITS4 = [("{0}C(C{1})(C{2})C{3}", "pentaerythrityl"), ("{0}[Si]({1})({2})O{3}", "silane4")]
 UNITS3 = [
     ("{0}CC({1})C{2}", "branch3"),
     ("{0}N(C{1})C{2}", "amine3"),
